@@ -198,6 +198,7 @@ def run(ctx, chk):
     # ---- Y6 (wipe layout) is C04.T6; re-evaluated here
     from . import C04
     sub = type(chk)('C17', LEVEL, chk.tier)
+    sub._nested = True
     info = C04.wipe_sequence(fb, sub)
     if info is not None:
         typed = [w for w, _ in info['seq'] if w != 'fill']
